@@ -150,13 +150,22 @@ def check_meanstd(ctx):
     ctx.rule(R, "_pytensor_get_mean_std returns ((mu * in_unit).to_value(out_unit), (std * in_unit).to_value(out_unit)) with mu, std the distribution's first two parameters, "
                 "computed afresh on every call (nothing cached on the variable).")
     fn = ctx.prog.func(UT, "_pytensor_get_mean_std", R)
-    rets = [s for s in A.walk_local(fn) if isinstance(s, ast.Return)]
-    ok = len(rets) == 1 and canon(rets[0].value) == canon(parse("((mu * in_unit).to_value(out_unit), (std * in_unit).to_value(out_unit))"))
-    ctx.check(R, rets[0] if rets else fn, "conversion in_unit -> out_unit applied to mean and std", ok, "returns %s" % (A.unparse(rets[0].value)[:100] if rets else None), key="ret")
-    mus = sorted(canon(s.value) for s in A.walk_local(fn) if isinstance(s, ast.Assign) and canon(s.targets[0]) == "mu")
-    sds = sorted(canon(s.value) for s in A.walk_local(fn) if isinstance(s, ast.Assign) and canon(s.targets[0]) == "std")
-    okm = mus == sorted([canon(parse("dist_params[0].eval()")), canon(parse("pars[0].eval()"))]) and sds == sorted([canon(parse("dist_params[1].eval()")), canon(parse("pars[1].eval()"))])
-    ctx.check(R, fn, "mu / std are distribution parameters 0 / 1", okm, "mu from %s, std from %s" % (mus, sds), key="params")
+    fl = A.Flow(fn)
+    okall = bool(fl.returns)
+    seen = []
+    srcs = ("dist.owner.op.dist_params(dist.owner)", "dist.owner.inputs[3:]")
+    for v, st in fl.returns:
+        if not (isinstance(v, ast.Tuple) and len(v.elts) == 2):
+            okall = False
+            seen.append(A.unparse(v)[:80])
+            continue
+        for k, e in enumerate(v.elts):
+            want = {canon(parse("(%s[%d].eval() * in_unit).to_value(out_unit)" % (src, k))) for src in srcs}
+            for _, leaf in A.ifexp_terms(e):
+                c = canon(leaf)
+                seen.append(A.unparse(leaf)[:80])
+                okall = okall and c in want
+    ctx.check(R, fn, "mean / std = (distribution parameter 0 / 1 * in_unit).to_value(out_unit)", okall, "returns %s" % seen, key="ret")
     stores = [n for n in A.walk_local(fn) if isinstance(n, ast.Attribute) and isinstance(n.ctx, ast.Store)] + [c for c in A.calls_in(fn) if A.call_name(c) == "setattr"]
     ctx.check(R, fn, "nothing is cached on the distribution object", not stores, "`%s` stores converted numbers on the variable: a later helper for data in another unit reuses them" % (A.unparse(stores[0])[:40] if stores else ""), key="cache")
 
@@ -278,15 +287,54 @@ def check_data_and_ll(ctx):
         okr = len(rl) == 1 and canon(rl[0].value) == canon(parse("np.concatenate(%s) * rv_unit" % acc))
         ctx.check(R, rl[0] if rl else fn, "`%s` re-labelled with the common unit" % acc, okr, "%s = %s" % (acc, A.unparse(rl[0].value) if rl else None), key="label:" + acc)
     ll = ctx.prog.func(SM, "JokerSamples.ln_unmarginalized_likelihood", R)
-    defs = {canon(s.targets[0]): canon(s.value) for s in A.walk_local(ll) if isinstance(s, ast.Assign) and isinstance(s.targets[0], ast.Name)}
-    want = {"data_rv": "data.rv.value", "data_unit": "data.rv.unit", "data_var": "data.rv_err.to_value(data_unit) ** 2"}
-    for k, v in want.items():
-        ctx.check(R, ll, "ln_unmarginalized_likelihood: %s in the data unit" % k, defs.get(k) == canon(parse(v)), "%s = %s" % (k, defs.get(k)), key="ll:" + k)
-    sv = [s for s in A.walk_local(ll) if isinstance(s, ast.Assign) and canon(s.targets[0]) == "s_vars" and "['s']" in A.unparse(s.value)]
-    ctx.check(R, sv[0] if sv else ll, "jitter variance in the data unit squared", len(sv) == 1 and canon(sv[0].value) == canon(parse("self['s'].to_value(data_unit) ** 2")), "s_vars = %s" % (A.unparse(sv[0].value) if sv else None), key="ll:s")
+    fl = A.Flow(ll)
     ln = [c for c in A.calls_in(ll) if A.call_name(c) == "ln_normal"]
-    okl = len(ln) == 1 and canon(ln[0].args[0]) == canon(parse("model_rv.to_value(data_unit)")) and canon(ln[0].args[1]) == "data_rv"
-    ctx.check(R, ln[0] if ln else ll, "model curve stripped in the data unit", okl, "ln_normal(%s)" % (", ".join(A.unparse(a) for a in ln[0].args) if ln else None), key="ll:model")
+    if len(ln) != 1 or len(ln[0].args) != 3:
+        ctx.undecided(R, ll, "ln_normal call", "expected one ln_normal(model, data, variance) call")
+        return
+    st = A.enclosing_stmt(ln[0])
+    model, dat, var = [A.inline_temporaries(a, st, ll) for a in ln[0].args]
+    okm = isinstance(model, ast.Call) and A.last_attr(model) == "to_value" and len(model.args) == 1 and canon(model.args[0]) == canon(parse("data.rv.unit"))
+    ctx.check(R, ln[0], "model curve stripped in the data unit", okm, "model values: %s" % A.unparse(model)[:90], key="ll:model")
+    ctx.check(R, ln[0], "ln_unmarginalized_likelihood: data_rv in the data unit", canon(dat) == canon(parse("data.rv.value")), "data values: %s" % A.unparse(dat)[:60], key="ll:data_rv")
+    # variance = err^2 (data unit) + jitter^2 (data unit); the jitter term is the loop element of the per-row variances
+    lp = [a for a in A.ancestors(ln[0]) if isinstance(a, ast.For)]
+    jit = None
+    rest = None
+    if isinstance(var, ast.BinOp) and isinstance(var.op, ast.Add):
+        for x, y in ((var.left, var.right), (var.right, var.left)):
+            if isinstance(x, ast.Name):
+                jit, rest = x, y
+    okv = rest is not None and canon(rest) == canon(parse("data.rv_err.to_value(data.rv.unit) ** 2"))
+    ctx.check(R, ln[0], "ln_unmarginalized_likelihood: data_var in the data unit", okv, "variance: %s" % A.unparse(var)[:90], key="ll:data_var")
+    oks = False
+    why = "jitter term not found"
+    if jit is not None and lp:
+        src = _loop_source(lp[0], jit.id)
+        if src is not None:
+            vals = [canon(A.inline_temporaries(x, lp[0], ll)) for x in A.strip_ifexp(fl.resolve(src, at=lp[0]))]
+            nz = [v for v in vals if v != canon(parse("np.zeros(len(self))"))]
+            oks = nz == [canon(parse("self['s'].to_value(data.rv.unit) ** 2"))]
+            why = "jitter variances: %s" % vals
+    ctx.check(R, lp[0] if lp else ll, "jitter variance in the data unit squared", oks, why, key="ll:s")
+
+
+def _loop_source(loop, name):
+    """the iterable whose elements the loop binds to ``name`` (through enumerate / zip)"""
+    def rec(tgt, it):
+        if isinstance(tgt, ast.Name):
+            return it if tgt.id == name else None
+        if isinstance(tgt, ast.Tuple) and isinstance(it, ast.Call):
+            cn = A.call_name(it)
+            if cn == "enumerate" and len(tgt.elts) == 2 and it.args:
+                return rec(tgt.elts[1], it.args[0])
+            if cn == "zip" and len(tgt.elts) == len(it.args):
+                for t, a in zip(tgt.elts, it.args):
+                    r = rec(t, a)
+                    if r is not None:
+                        return r
+        return None
+    return rec(loop.target, loop.iter)
 
 
 def run(ctx):
